@@ -2,6 +2,8 @@ package hdr
 
 import (
 	"context"
+	"fmt"
+	"os"
 
 	"verifharness/common"
 )
@@ -14,6 +16,12 @@ func baseGen() GenCfg {
 // HistChecks returns the history-driven check for a property.
 func HistCheckFor(prop string) (HistCheck, bool) {
 	g := baseGen()
+	// one history in longEvery gets a base chain crossing 1000-header file boundaries (each op on
+	// such a chain costs ~0.5 s because pruned heights are read back from the header files)
+	longEvery := 400
+	if os.Getenv("VERIF_TIER") == "thorough" || Tier == "thorough" {
+		longEvery = 150
+	}
 	hc := HistCheck{Prop: prop}
 	switch prop {
 	case "C01":
@@ -31,21 +39,25 @@ func HistCheckFor(prop string) (HistCheck, bool) {
 	case "C09":
 		g.WClean, g.WSave, g.WReload = 10, 2, 5
 		g.PruneDepths = []int{0, 0, 8, 12, 20}
-		g.BaseLens = []int{0, 2, 8, 20, 30}
+		g.BaseLens = longBases([]int{0, 2, 8, 20, 30}, longEvery, []int{998, 1003, 2001})
 		hc.Rule = "histories emphasising multi-branch trees consolidated repeatedly, small prune depths via hook, reloads; every accepted header looked up through every by-hash API after every op"
 	case "C10":
 		g.WClean = 14
-		g.PruneDepths = []int{0}
+		g.PruneDepths = []int{0, 0, 8, 12, 20}
+		g.BaseLens = longBases([]int{0, 0, 1, 2, 3, 8, 20}, longEvery, []int{999, 1002, 2000})
 		hc.Rule = "histories with Clean at every kind of position (after reorgs, repeated, several side branches), then continued; snapshot before == after for tip, every height, every header's height and flag"
 	case "C11":
 		g.WClean, g.WSave, g.WReload = 6, 3, 10
+		g.WMark, g.WUnmark = 2, 2
 		g.Twin = true
 		g.PruneDepths = []int{0, 0, 0, 12, 20}
+		g.BaseLens = longBases([]int{0, 0, 1, 2, 3, 8, 20}, longEvery, []int{997, 1001})
 		hc.Rule = "histories with repeated Save/Load generations mixed with Clean; loaded vs original vs model; both continue with the same submissions (twin mode)"
 	case "C12":
 		g.WClean, g.WSave, g.WReload = 8, 8, 2
 		g.EarlySave = true
 		g.PruneDepths = []int{0, 0, 8, 12}
+		g.BaseLens = longBases([]int{0, 0, 1, 2, 3, 8, 20}, longEvery, []int{998, 1001})
 		hc.Opt.CrashPoints = true
 		hc.Rule = "every prefix of the Write/Remove journal of every Clean and Save in each history is loaded by a fresh repository (fault enumeration per history)"
 	case "C17":
@@ -79,13 +91,20 @@ func HistCount(prop, tier string) int {
 	if tier == "thorough" {
 		n *= 60
 	}
+	if v := os.Getenv("VERIF_N"); v != "" { // debugging aid: override the number of histories
+		fmt.Sscan(v, &n)
+	}
 	return n
 }
+
+// Tier is set by RunHist before the check is configured.
+var Tier = "quick"
 
 // Extra lets other packages add scenarios to a history-driven check (run before Finish).
 var Extra = map[string]func(ctx context.Context, run *common.Run){}
 
 func RunHist(prop, tier string, seed int64) int {
+	Tier = tier
 	hc, ok := HistCheckFor(prop)
 	if !ok {
 		return 2
@@ -108,4 +127,14 @@ func RunHist(prop, tier string, seed int64) int {
 			"blocks_on_best_chain": c18Obs.bestBlocks, "blocks_on_side_branches": c18Obs.sideBlocks, "blocks_in_pruned_history": c18Obs.prunedBlocks})
 	}
 	return run.Finish()
+}
+
+// longBases returns short base lengths repeated so that about one history in `every` gets one of
+// the long bases (chains crossing 1000-header file boundaries).
+func longBases(short []int, every int, long []int) []int {
+	var out []int
+	for len(out) < every*len(long) {
+		out = append(out, short...)
+	}
+	return append(out, long...)
 }
